@@ -57,6 +57,25 @@ def run_fixed(run, db, rule, fname, sign, parities=None):
         check_mdft_phys(run, rule, f, dom, res[0].value, sh, sign, ('n0', 'n1'), ('M0', 'M1'))
     # czt route: parity classes of every length
     classes = list(parity_classes(['n0', 'n1', 'M0', 'M1'])) if parities is None else parities
+    try:
+        _czt_classes(run, db, rule, f, sign, classes)
+    except AnalysisError as e:
+        # the chirp model does not read this organisation of the executor: when chirp-Z == matrix DFT was decided on values and both
+        # engines are handed the same arguments by this wrapper, its chirp-Z route computes what its matrix route computes
+        from .c01values import defer_to_routes
+        from ..core.report import Run
+        from . import c01
+        quiet = Run(getattr(run, 'prop', 'C01'), 'quick', '')
+        try:
+            c01.dispatch_rules(quiet, db)
+            same_args = not quiet.findings and not quiet.errors
+        except AnalysisError:
+            same_args = False
+        if not (same_args and defer_to_routes(run, db, 'run_fixed(%s, chirp-Z route)' % fname, e, ((rule, 60 * len(classes)),))):
+            raise
+
+
+def _czt_classes(run, db, rule, f, sign, classes):
     for par in classes:
         it, dom = K.mk(db, par)
         from .c01 import watch_coincidences
